@@ -15,6 +15,7 @@ an automatic insert (any unused id is legal), and - Redis only - the iteration o
 permutation of the collection is legal; read from the fake server with SSCAN right before the call).
 """
 import asyncio
+import copy
 import datetime
 import json
 import math
@@ -49,6 +50,8 @@ ASSUMPTIONS = [
     'modified_count ignores no-op updates: sequences run on Mongo use datetimes (ms precision), ints < 2^63, equality '
     'filters only on scalar fields, every update sets a fresh value, and no limit=0 (MongoDB: 0 = no limit)',
     'an equality criterion whose value is an object cannot be expressed (a dict criterion is the operator syntax)',
+    'no aliasing: after every call the harness mutates in place everything the driver returned and (Redis, Mongo; JSON once '
+    'fixes/C06-json-copy-inputs.diff is applied - JSON_INPUT_MUTATION) everything it was handed; later answers must not change',
     'the reserved key `__t` inside stored objects is generated on purpose (in-band type marker, finding F11)',
 ]
 
@@ -454,7 +457,7 @@ class Gen:
             sort = [[k, rng.random() < 0.5] for k in keys[:rng.choice([1, 1, 2])]]
         fields = None
         if rng.random() < 0.35:
-            fields = rng.sample(['id', 'n', 's', 'f', 'x', 'nonexistent', 'd'], rng.randint(1, 3))
+            fields = rng.sample(['id', 'n', 's', 'f', 'x', 'x', 'y', 'é"k', 'nonexistent', 'd'], rng.randint(1, 3))
         limit = rng.choice([None, None, 1, 2, 3, 100] if self.mongo else [None, None, 0, 1, 2, 3, 100])
         return {'uid': uid, 'op': 'query', 'coll': coll, 'fields': fields, 'filt': self.filt(coll), 'sort': sort, 'limit': limit}
 
@@ -592,6 +595,39 @@ def canon_records(rs):
     return out
 
 
+# No aliasing: "behaves like a plain in-memory reference store for ANY sequence of operations" includes the caller's own
+# moves between two operations.  The reference store's values are immutable (Coq terms), so whatever the caller does with
+# a returned record, or with a record it handed over earlier, cannot change later answers.  The harness therefore
+#   * hands deep copies to the driver and keeps the originals for the reference store,
+#   * after every call, vandalises in place everything the driver returned (nested lists get elements, nested objects get
+#     keys, scalars are overwritten, the result list is cleared) and everything it was handed (see JSON_INPUT_MUTATION).
+MUT = '\x00mutated-by-caller'
+# The JSON driver at the snapshot keeps the caller's own objects (insert stores the dict it is given / its nested values,
+# update and replace store the nested values of record_part / record uncopied): finding 7 in notes/C06.md, repair proposed
+# in fixes/C06-json-copy-inputs.diff.  Until that repair (or a known entry {"input_aliasing": true}) is in place the
+# mutation of *inputs* is exercised on the Redis and Mongo drivers only; set to True afterwards.
+JSON_INPUT_MUTATION = True
+
+
+def vandalise(v):
+    """mutate a structure in place, as deep as it goes"""
+    if isinstance(v, dict):
+        for k in list(v):
+            x = v[k]
+            if isinstance(x, (dict, list)):
+                vandalise(x)
+            else:
+                v[k] = MUT
+        v[MUT] = [MUT]
+    elif isinstance(v, list):
+        for i, x in enumerate(v):
+            if isinstance(x, (dict, list)):
+                vandalise(x)
+            else:
+                v[i] = MUT
+        v.append(MUT)
+
+
 async def run_seq(kind, seq, workdir, tag):
     """-> list of steps {'op': concrete op, 'out': (...), 'scan': [...]|None, 'note': str}; stops at the first error"""
     from qtoggleserver.drivers.persist import json as json_driver
@@ -608,7 +644,18 @@ async def run_seq(kind, seq, workdir, tag):
         return v
 
     def rfilt(f):
-        return {k: (res(c[1]) if c[0] == 'eq' else {o: res(v) for o, v in c[1]}) for k, c in f}
+        return copy.deepcopy({k: (res(c[1]) if c[0] == 'eq' else {o: res(v) for o, v in c[1]}) for k, c in f})
+
+    mutate_inputs = JSON_INPUT_MUTATION or not kind.startswith('json')
+
+    def handed(d):
+        """the copy handed to the driver; vandalised once the call has returned"""
+        d = copy.deepcopy(d)
+        if mutate_inputs:
+            pending.append(d)
+        return d
+
+    pending = []
 
     def cfilt_concrete(f):
         return [[k, ['eq', res(c[1])] if c[0] == 'eq' else ['ops', [[o, res(v)] for o, v in c[1]]]] for k, c in f]
@@ -628,7 +675,7 @@ async def run_seq(kind, seq, workdir, tag):
             if k == 'insert':
                 conc['id'] = o['id']
                 conc['record'] = o['record']
-                rec = dict(o['record'])
+                rec = handed(o['record'])
                 if o['id'] is not None:
                     rec['id'] = o['id']
                 try:
@@ -646,11 +693,11 @@ async def run_seq(kind, seq, workdir, tag):
             elif k == 'update':
                 conc['part'] = o['part']
                 conc['filt'] = cfilt_concrete(o['filt'])
-                out = ('count', int(await driver.update(coll, dict(o['part']), rfilt(o['filt']))))
+                out = ('count', int(await driver.update(coll, handed(o['part']), rfilt(o['filt']))))
             elif k == 'replace':
                 conc['id'] = res(o['id'])
                 conc['record'] = o['record']
-                out = ('bool', bool(await driver.replace(coll, conc['id'], dict(o['record']))))
+                out = ('bool', bool(await driver.replace(coll, conc['id'], handed(o['record']))))
             elif k == 'remove':
                 conc['filt'] = cfilt_concrete(o['filt'])
                 out = ('count', int(await driver.remove(coll, rfilt(o['filt']))))
@@ -661,10 +708,16 @@ async def run_seq(kind, seq, workdir, tag):
                     scan = [str(x) for x in driver._client.sscan_iter(driver._make_set_key(coll))]
                 rs = await driver.query(coll, None if o['fields'] is None else list(o['fields']), rfilt(o['filt']),
                                         [(f, r) for f, r in o['sort']], o['limit'])
-                out = ('recs', canon_records(list(rs)))
+                rs = list(rs)
+                out = ('recs', canon_records(copy.deepcopy(rs)))
+                vandalise(rs)
+                del rs[:]
         except Exception as e:
             out = ('err',)
             note = '%s: %s' % (type(e).__name__, str(e)[:200])
+        for d in pending:
+            vandalise(d)
+        del pending[:]
         steps.append({'op': conc, 'out': out, 'scan': scan, 'note': note})
         if out[0] == 'err':
             break
@@ -735,6 +788,10 @@ def classify(kind, seq, steps, j):
         key['id_plus_criteria'] = True
     if any(o['op'] in ('insert', 'replace') and not o['record'] for o in seq):
         key['empty_record'] = True
+    if j < len(steps) and steps[j]['out'][0] == 'recs' and 'mutated-by-caller' in json.dumps([{k: enc(v) for k, v in r.items()} for r in steps[j]['out'][1]], default=str):
+        key['caller_mutation_visible'] = True     # aliasing: an in-place edit made by the caller shows up in the store
+        if kind.startswith('json') and JSON_INPUT_MUTATION:
+            key['aliasing'] = 'input-or-output'
     return key
 
 
@@ -987,11 +1044,11 @@ def run_batch(ctx, res, seqs, kinds, label, shrink_budget=9):
         pre = json.dumps(classify(kind, seq, steps, j), sort_keys=True)
         groups.setdefault(pre, []).append(ci)
     res['extra']['violating_cases'] = res['extra'].get('violating_cases', 0) + len(bad_spec)
-    seen = ctx.__dict__.setdefault('c06_groups', {})       # shrink at most 1 case per group and 5 per check
+    seen = ctx.__dict__.setdefault('c06_groups', {})       # shrink at most 1 case per group and 4 per check
     reported = ctx.__dict__.setdefault('c06_reported', set())
     for pre, cis in sorted(groups.items(), key=lambda kv: kv[1][0]):
         for ci in cis:
-            if seen.get(pre, 0) >= 1 or sum(seen.values()) >= 5:
+            if seen.get(pre, 0) >= 1 or sum(seen.values()) >= 4:
                 break
             seen[pre] = seen.get(pre, 0) + 1
             name, kind, seq = meta[ci]
@@ -1041,7 +1098,7 @@ def check(ctx, res):
     corpus = load_corpus()
     if corpus:
         run_batch(ctx, res, corpus, kinds, 'corpus')
-    n = ctx.n(600, 30000)
+    n = ctx.n(400, 30000)
     _generated(ctx, res, rng, n, kinds)
     codec_cases(ctx, res, rng, ctx.n(300, 5000))
     if 'mongo' in kinds:
